@@ -458,6 +458,31 @@ def run_c11(tier, budget, rnd) -> StreamResult:
                         res.violation("meta-game value ≠ gap of the game knowing exactly minimal ∪ set",
                                       dict(ctx0, meta_coalition=m, inner=inner, reported=v, expected=expect[frozenset(inner)]),
                                       key="meta:value")
+                # the bulk entry points of the meta-game (a `Game`): number_of_players, get_values(list), get_values() over all
+                # 2^m meta-coalitions (n = 3 only: 16) must report the same quantity as get_value, in the order asked
+                asked = [m for m in ms if len([i for i in range(len(players)) if m >> i & 1]) <= kk][:6]
+                try:
+                    if mg.number_of_players != len(players):
+                        res.violation("MetaGame.number_of_players ≠ number of non-minimal coalitions",
+                                      dict(ctx0, reported=int(mg.number_of_players), expected=len(players)), key="meta:players")
+                    if asked:
+                        bulk = [float(x) for x in mg.get_values(Coalition(m) for m in asked)]      # a one-shot iterable
+                        want_b = [expect[frozenset(players[i] for i in range(len(players)) if m >> i & 1)] for m in asked]
+                        res.evaluations += 1
+                        res.count("meta:get_values")
+                        if bulk != want_b:
+                            res.violation("MetaGame.get_values(coalitions) ≠ the gaps of the games knowing exactly minimal ∪ set, in the order asked",
+                                          dict(ctx0, meta_coalitions=asked, reported=bulk, expected=want_b), key="meta:values")
+                    if n == 3:
+                        allv = [float(x) for x in mg.get_values()]
+                        want_a = [fresh.gap(table, set(minimal) | {players[i] for i in range(len(players)) if m >> i & 1})
+                                  for m in range(2 ** len(players))]
+                        res.count("meta:get_values-all")
+                        if allv != want_a:
+                            res.violation("MetaGame.get_values() ≠ the gap of every reveal set in meta-coalition id order",
+                                          dict(ctx0, reported=allv, expected=want_a), key="meta:values")
+                except Exception as e:      # noqa: BLE001
+                    res.violation(f"MetaGame bulk entry point raised {type(e).__name__}: {e}", dict(ctx0), key="meta:raised")
                 # the meta-game holds the live full game: after the full game is edited in place the SAME meta-game object answers
                 # for the edited game (meta-coalitions asked before the edit included)
                 if ms:
